@@ -9,6 +9,11 @@ Theorem x_next_backup_ok : forall base entries,
   (let n := x_next_backup_from_max (fold_right N.max x_backup_max_default (backup_nums base entries)) in
    if n <? U64 then Some n else None).
 Proof. reflexivity. Qed.
+(* ... and the successor is CHECKED in the source (`checked_add`, an error when it does not fit): the `None` of the model is
+   a failed step in every build — an unchecked `+ 1` panics in a debug build but wraps to 0 in a release build, where the
+   rename then replaces an existing `name.~0~` (defect found in round 7, repaired) *)
+Theorem x_next_backup_checked_ok : x_next_backup_checked = true.
+Proof. reflexivity. Qed.
 
 Theorem x_backup_pattern_ok : x_backup_pattern = "^\~(\d+)\~$"%string.
 Proof. reflexivity. Qed.
